@@ -1,4 +1,4 @@
-\* U1 (thorough): p2p subscription AND a group between the same two users, one session each; as-intended design
+\* U1 (thorough): one group, sessions may connect in the background and disconnect; one permission change; as-intended design
 CONSTANTS
   Users = {"u1", "u2"}
   UserOrder <- c_UserOrder2
@@ -7,8 +7,8 @@ CONSTANTS
   SessUser <- c_SessUser2
   Groups = {"g1"}
   GroupOrder <- c_Groups1
-  P2Ps = {"p12"}
-  Ends <- c_Ends12
+  P2Ps = {}
+  Ends <- c_NoEnds
   Owner <- c_Owner1
   Strangers = {}
   DEV_TwoStepUnload = FALSE
@@ -20,11 +20,11 @@ CONSTANTS
   DEV_LoadContactsClobbers = FALSE
   DEV_NewGrpNoSupd = FALSE
   DEV_StaleAcrossReload = FALSE
-  Kinds = {"me", "grp", "member", "mute"}
+  Kinds = {"me", "grp", "member", "mute", "bg", "disc"}
   MaxMbox = 3
   MaxUnloads = 2
   MaxPerm = 1
-  MaxBg = 0
+  MaxBg = 1
   MaxDepth = 0
   DumpPrefix = ""
 INIT Init
